@@ -17,11 +17,11 @@ func TestBasics(t *testing.T) {
 	}{
 		{".c{color:red;x:y;}.z{color:blue}", 2},
 		{".c{color:red}.q{a:b;}.z{color:blue}", 3},
-		{".c{color:\"red;}.z{color:blue}", 1},    // unterminated string swallows to EOF... actually bad-string at newline only
-		{".c{color:url(a;}.z{color:blue}", 1},   // url swallows up to ')' or EOF
+		{".c{color:\"red;}.z{color:blue}", 1}, // unterminated string swallows to EOF... actually bad-string at newline only
+		{".c{color:url(a;}.z{color:blue}", 1}, // url swallows up to ')' or EOF
 		{".c{color:a\\;}.z{color:blue}", 2},
-		{".c{color:(;}.z{color:blue}", 1},       // open paren swallows the }
-		{".c{color:/*;}.z{color:blue}", 0},      // comment to EOF; rule without block end is still a rule? no '{'... 
+		{".c{color:(;}.z{color:blue}", 1},  // open paren swallows the }
+		{".c{color:/*;}.z{color:blue}", 0}, // comment to EOF; rule without block end is still a rule? no '{'...
 	} {
 		got := len(ParseRules(tc.in))
 		t.Logf("%q -> %d rules", tc.in, got)
